@@ -148,5 +148,6 @@ def host_macro(case, label="w", **kw):
     creator.__name__ = creator.__qualname__ = f"H{_HOST_COUNTER[0]}"
     creator.__module__ = __name__
     cls = as_macro_node(*[f"o{i}" for i in outs], validate_output_labels=False)(creator)
+    globals()[creator.__name__] = cls  # what the decorator form does: the name denotes the class (needed to unpickle)
     m = cls(label=label, **kw)
     return m, made
